@@ -203,8 +203,18 @@ func ucipos(args []string) {
 	for i := 0; i < *n; i++ {
 		spec := ucih.EngineSpec{Name: []string{"morlock", "turochamp", "sargon", "bernstein"}[r.Intn(4)], Hash: uint(r.Intn(2)), Seed: r.Int63()}
 		e, opts := ucih.Build(ctx, spec)
+		// one session in four gets an engine that has been used before the driver is attached (a host may
+		// keep its engine and attach a new driver per session): it holds some other game
+		preused := r.Intn(4) == 0
+		if preused {
+			pg := extend(r, gameT{start: "fen " + all[r.Intn(len(all))].Fen}, 1+r.Intn(4))
+			_ = e.Reset(ctx, pg.fenOf())
+			for _, t := range pg.moves {
+				_ = e.Move(ctx, t)
+			}
+		}
 		s := ucih.Start(ctx, e, opts...)
-		w.Emit(out.M{"op": "session", "engine": spec.Name, "hash": spec.Hash})
+		w.Emit(out.M{"op": "session", "engine": spec.Name, "hash": spec.Hash, "preused": proj.B2I(preused)})
 		var cur *gameT
 		k := 1 + r.Intn(*maxCmds)
 		for c := 0; c < k; c++ {
@@ -213,6 +223,10 @@ func ucipos(args []string) {
 			line := ""
 			x := r.Intn(100)
 			switch {
+			case cur == nil && preused:
+				// the first thing the driver hears is a game from the start position
+				shape = "new"
+				g = extend(r, gameT{start: "startpos"}, r.Intn(5))
 			case cur == nil || x < 18:
 				shape = "new"
 				g = extend(r, gameT{start: randomStart()}, r.Intn(8))
